@@ -125,7 +125,7 @@ Definition theme_8 (cc : list (N * bytes)) : theme :=
            (c_esc :: b!"[4m") (c_esc :: b!"[1m").
 
 Definition dark : theme :=
-  theme_256 [(1, b!"015"); (2, b!"249"); (3, b!"000"); (4, b!"121"); (5, b!"167");
+  theme_256 [(1, b!"015"); (2, b!"249"); (3, b!"000"); (4, b!"120"); (5, b!"167");
              (7, b!"117"); (8, b!"027"); (9, b!"213"); (6, b!"221")].
 
 Definition light : theme :=
